@@ -316,7 +316,7 @@ class Gen:
         r = self.r
         obs = [("index_valid",), ("iter",)]
         k = r.choice(["ooo_batch", "carriers", "bad_batch", "stale_handle", "torn_update", "handle_times", "linebreaks", "zones",
-                      "remove_first", "ooo_then_remove", "nested_not", "reset_then_time", "getter_memo", "handle_sorted", "odd_strings", "shared_maps", "hash_twins", "same_count", "redate", "fold_twins", "big_ties"])
+                      "remove_first", "ooo_then_remove", "nested_not", "reset_then_time", "getter_memo", "handle_sorted", "odd_strings", "shared_maps", "hash_twins", "same_count", "redate", "fold_twins", "big_ties", "handle_unset", "same_row_twice"])
         pref = self.profile.get("scenario_pref")
         if pref and r.random() < 0.5:
             k = r.choice(pref)
@@ -370,7 +370,10 @@ class Gen:
             for _ in range(4):
                 q = r.choice(shapes)()
                 ops.append(r.choice([("search", q, self.mfilter(), False), ("count", q, None), ("get", q, None)]))
-            ops += [("remove", r.choice(shapes)(), self.mfilter())] + obs + [("count", ("noop", "tags"), None)]
+            ops += [("remove", r.choice(shapes)(), r.choice(["m1", "m2", self.mfilter()]))] + obs + [("count", ("noop", "tags"), None)]
+            for _ in range(3):
+                ops.append(r.choice([("search", self.simple("tags"), None, False), ("count", self.simple("fields"), self.mfilter()), ("get", self.simple("tags"), None),
+                                     ("select", ["tags.a", "fields.a"], self.simple("meas"), None)]))
         elif k == "reset_then_time":
             # the database is emptied (three ways), refilled in time order, then asked by time
             pts = self.points_batch(r.choice([2, 3, 4]), in_order=True)
@@ -474,6 +477,28 @@ class Gen:
             for p in pts:
                 p["tags"]["nl"] = r.choice(["a\nb", "c\r\nd", "e\rf"])
             ops += [("insert", pts, None, "multiple"), ("insert", [self.point(T0 - 9 * SEC)], None)] + obs + [("len",), ("all", False), ("len",)]
+        elif k == "handle_unset":
+            # unset_tags / unset_fields through a handle, with keys that exist as a tag only, as a field only, and as both
+            pts = self.points_batch(r.choice([3, 4]), in_order=True)
+            for i, p in enumerate(pts):
+                p["meas"] = "m1" if i % 2 == 0 else "m2"
+                p["tags"].update({"only_tag": "t", "both": "x"})
+                p["fields"].update({"only_field": 1, "both": 2})
+            ops += [("insert", pts, None, "multiple")] + obs
+            q = ("S", "tags", [("k", "both")], ("exists",))
+            ops += [r.choice([("handle", "m1", ("update", q, {"unset_tags": ["only_tag"]})), ("handle", "m1", ("update_all", {"unset_fields": ["only_field"]})),
+                              ("handle", "m2", ("update", q, {"unset_tags": ["both"], "fields": ("static", {"n": 1})})),
+                              ("handle", "m1", ("update_all", {"unset_fields": ["both"], "unset_tags": ["only_tag"]}))])] + obs
+            ops += [("handle", "m2", ("update_all", {"unset_tags": ["both"]}))] + obs + [("get_tag_keys", None), ("get_field_keys", None), ("get_tag_keys", "m1")]
+        elif k == "same_row_twice":
+            # a point, an update of it, then a point IDENTICAL to the original (same text in the file): two different stored points
+            p0 = self.point(T0 + 5 * SEC)
+            p0["tags"]["dup"], p0["fields"]["v"] = "yes", 1
+            twin = {"time": p0["time"], "meas": p0["meas"], "tags": dict(p0["tags"]), "fields": dict(p0["fields"])}
+            ops += [("insert", [self.point(T0), p0], None, "multiple")] + obs
+            ops += [("update", ("S", "tags", [("k", "dup")], ("exists",)), {"tags": ("static", {"dup": "changed"}), "fields": ("static", {"v": 2})}, None)] + obs
+            ops += [("insert", [twin], None)] + obs + [("all", False), ("get_tag_values", ["dup"], None), ("get_field_values", "v", None), ("iter",)]
+            ops += [(("reopen", r.random() < 0.5) if csv else ("reindex",)), ("all", False), ("get_field_values", "v", None), ("handle", p0["meas"], ("all", False))]
         elif k == "big_ties":
             # a dozen points, several sharing an instant; sparse answers whose storage positions go beyond 8: order among equal instants is
             # insertion order (sorted reads), storage order otherwise
